@@ -1045,7 +1045,6 @@ func TestC08CasterBuffered(t *testing.T) {
 	})
 }
 
-
 func c08SmallBuffer(t *rapid.T, st *vkit.Stats) {
 	capacity := rapid.IntRange(1, 3).Draw(t, "smallCap")
 	n := rapid.IntRange(capacity+1, capacity+6).Draw(t, "audience")
@@ -1058,6 +1057,21 @@ func c08SmallBuffer(t *rapid.T, st *vkit.Stats) {
 		left -= d
 	}
 	recvFirst := rapid.IntRange(0, left).Draw(t, "receiveBeforeDereg")
+	if rapid.IntRange(0, 7).Draw(t, "hugeSmallBuffer") == 0 {
+		// a very large audience on a tiny buffer, leaving in one to three bulk deregistrations in the middle of the Send
+		// (all of it, or all but a few receivers)
+		n = rapid.SampledFrom([]int{16384, 16385, 20000, 32769, 40000, 70000}).Draw(t, "hugeAudience")
+		stay := rapid.SampledFrom([]int{0, 0, 1, 5}).Draw(t, "stay")
+		leave := n - stay
+		deregs = nil
+		for parts := rapid.IntRange(1, 3).Draw(t, "parts"); parts > 1 && leave > 1; parts-- {
+			d := rapid.IntRange(1, leave-1).Draw(t, "hugeDereg")
+			deregs = append(deregs, d)
+			leave -= d
+		}
+		deregs = append(deregs, leave)
+		left, recvFirst = stay, 0
+	}
 	trace := []string{fmt.Sprintf("small buffer: cap=%d audience=%d receiveFirst=%d deregs=%v", capacity, n, recvFirst, deregs)}
 	vkit.CaseStart(func() string { return trace[0] })
 	rapid.SyncTest(t, func(t *rapid.T) {
